@@ -212,18 +212,20 @@ impl Prop for Durations {
         }
         // metamorphic: the first part held in a variable gives exactly the same result
         let mut via_checked = false;
-        if acc.ok() && c.via_var && c.lang == "en" {
+        // (every other count: only the COUNT is held in the name - `x = 90` / `x minutes ...` - in either language)
+        let count_only = c.groups.first().and_then(|g| g.first()).map_or(false, |p| p.count % 2 == 1 && !p.group);
+        if acc.ok() && c.via_var && (c.lang == "en" || count_only) {
             if let Some(first) = c.groups.first().and_then(|g| g.first()) {
                 let mut def = Line::default();
                 def.push(Tok::word("x", Class::Var));
                 def.push(Tok::op('='));
-                for t in first.toks(&c.lang) {
+                for t in first.toks(&c.lang).into_iter().take(if count_only { 1 } else { 2 }) {
                     def.push(t);
                 }
                 let mut l = case_line(c);
                 // the first part is `count word`: two tokens
                 if l.toks.len() >= 2 {
-                    l.toks.drain(0..2);
+                    l.toks.drain(0..if count_only { 1 } else { 2 });
                     l.toks.insert(0, Tok::word("x", Class::Var).sp(0));
                     if l.toks.len() > 1 && l.toks[1].space == 0 {
                         l.toks[1].space = 1;
@@ -328,16 +330,95 @@ pub fn table() -> Vec<Case> {
     out
 }
 
+// ---- more than one conversion on a line -------------------------------------------------------------------
+
+/// `G1 as u1 +- G2 as u2` (each conversion floors the duration it stands next to, then the sum is taken) and
+/// `G as u1 as u2` (the second conversion floors the result of the first); sources also held in names
+#[derive(Clone, Debug, Serialize, Deserialize)]
+pub struct TwoConv {
+    pub g1: Vec<Part>,
+    pub u1: u8,
+    /// Some((plus, second group, its target)) or None = chained form `G1 as u1 as u2`
+    pub second: Option<(bool, Vec<Part>, u8)>,
+    pub u2: u8,
+    pub conn: u8,
+    pub via_var: bool,
+}
+
+pub struct Conversions;
+
+fn floor_to(secs: i64, unit: u8) -> i64 {
+    let len = UNIT_LEN[unit as usize];
+    (secs.abs() / len) * len
+}
+
+impl Prop for Conversions {
+    type Case = TwoConv;
+    fn name(&self) -> &'static str {
+        "several-conversions"
+    }
+    fn check(&self, w: &mut Worker, c: &TwoConv) -> Verdict {
+        let cfg = Cfg::default();
+        let words = |g: &Vec<Part>| -> String { g.iter().flat_map(|p| p.toks("en")).map(|t| t.text(",", ".")).collect::<Vec<_>>().join(" ") };
+        let target = |u: u8| spellings("en", u)[0];
+        let conn = CONV_WORDS[c.conn as usize % 4];
+        let s1: i64 = c.g1.iter().map(|p| p.seconds()).sum();
+        let (text, exp) = match &c.second {
+            Some((plus, g2, u2)) => {
+                let s2: i64 = g2.iter().map(|p| p.seconds()).sum();
+                let e = if *plus { floor_to(s1, c.u1) + floor_to(s2, *u2) } else { floor_to(s1, c.u1) - floor_to(s2, *u2) };
+                let op = if *plus { '+' } else { '-' };
+                let t = if c.via_var {
+                    format!("first leg = {}\nrest = {}\nfirst leg {} {} {} rest {} {}", words(&c.g1), words(g2), conn, target(c.u1), op, conn, target(*u2))
+                } else {
+                    format!("{} {} {} {} {} {} {}", words(&c.g1), conn, target(c.u1), op, words(g2), conn, target(*u2))
+                };
+                (t, e)
+            }
+            None => {
+                let e = floor_to(floor_to(s1, c.u1), c.u2);
+                let t = if c.via_var { format!("first leg = {}\nfirst leg {} {} {} {}", words(&c.g1), conn, target(c.u1), conn, target(c.u2)) } else { format!("{} {} {} {} {}", words(&c.g1), conn, target(c.u1), conn, target(c.u2)) };
+                (t, e)
+            }
+        };
+        let rendered = text.replace('\n', " ; ");
+        let out = match w.eval(&cfg, "en", &text) {
+            Ok(o) => o,
+            Err(p) => return Verdict::fail(format!("panic at {}: {}", p.site, p.message), rendered),
+        };
+        let mut acc = Acc::new();
+        match out.slots.last() {
+            Some(Slot::Ok { v: V::Dur(secs, 0), .. }) if *secs == exp => {}
+            other => acc.fail(format!("expected Duration({} s) got {:?}", exp, other.map(|s| s.brief()))),
+        }
+        acc.finish(rendered).nt(true).class(if c.second.is_some() { "two-conversions-in-a-sum" } else { "chained-conversions" }).class_if(c.via_var, "sources-held-in-names").class_if(c.g1.len() >= 2, "first-source-of-several-parts")
+    }
+}
+
+pub fn twoconv_strategy() -> impl Strategy<Value = TwoConv> {
+    // descending, distinct units with counts small enough for every floor to matter
+    let group = || prop::collection::vec((1u32..=400, 0u8..5), 1..=3).prop_map(|v| {
+        let mut v: Vec<Part> = v.into_iter().map(|(count, unit)| Part { count, unit, spelling: 0, group: false }).collect();
+        v.sort_by(|a, b| b.unit.cmp(&a.unit));
+        v.dedup_by_key(|p| p.unit);
+        v
+    });
+    (group(), 0u8..5, prop::option::weighted(0.7, (any::<bool>(), group(), 0u8..5)), 0u8..5, 0u8..4, prop::bool::weighted(0.3)).prop_map(|(g1, u1, second, u2, conn, via_var)| TwoConv { g1, u1, second, u2, conn, via_var })
+}
+
 pub fn run(ctx: &Ctx) {
-    ctx.rule("generated: 1-3 groups of 1-4 juxtaposed '(count unit)' parts (<= 7 parts), groups joined by + or -, counts 0..10^6 biased to carry boundaries (59/60/61, 23/24/25, 6/7/8, 29/30/31, 364/365/366, 11/12/13), every unit spelling of en and tr, optional 'as|to|in|into seconds|minutes|hours|days|weeks' (en); exhaustive table unit x spelling x boundary count x target; oracle: hard-coded unit lengths (60, 3600, 86400, 7 d, 30 d, 365 d, N months = 365*(N div 12)+30*(N mod 12) days), exact integer seconds; printed form parsed back with the language's own words: singular iff count = 1, strictly descending units, parts sum to the magnitude and equal the greedy decomposition; 'as' = floor(|D|/len)*len; non-trivial = >= 2 parts of different units, or a carry-boundary count, or an inexact 'as' quotient");
+    ctx.rule("generated: 1-3 groups of 1-4 juxtaposed '(count unit)' parts (<= 7 parts), groups joined by + or -, counts 0..10^6 biased to carry boundaries (59/60/61, 23/24/25, 6/7/8, 29/30/31, 364/365/366, 11/12/13), every unit spelling of en and tr, optional 'as|to|in|into seconds|minutes|hours|days|weeks' (en); exhaustive table unit x spelling x boundary count x target; the first part - or only its count - also held in a name bound on an earlier line; several conversions on one line ('G1 as u1 +- G2 as u2', 'G as u1 as u2', sources also held in names: every conversion floors the duration it stands next to); oracle: hard-coded unit lengths (60, 3600, 86400, 7 d, 30 d, 365 d, N months = 365*(N div 12)+30*(N mod 12) days), exact integer seconds; printed form parsed back with the language's own words: singular iff count = 1, strictly descending units, parts sum to the magnitude and equal the greedy decomposition; 'as' = floor(|D|/len)*len; non-trivial = >= 2 parts of different units, or a carry-boundary count, or an inexact 'as' quotient");
     ctx.assume("a zero duration prints the empty string (the sum of no parts); negative results print their magnitude; 'as months|years' is outside the statement");
     ctx.run_table(&Durations, "boundary-grid", table(), true);
     ctx.run_generated(&Durations, ctx.tier.pick(150_000, 1_500_000), case_strategy);
+    // several conversions on one line: each floors the duration it stands next to
+    ctx.run_generated(&Conversions, ctx.tier.pick(15_000, 150_000), twoconv_strategy);
 }
 
 pub fn replay(w: &mut Worker, sub: &str, case: &serde_json::Value) -> Option<Verdict> {
     match sub {
         "durations" => crate::engine::replay_case(&Durations, w, case),
+        "several-conversions" => crate::engine::replay_case(&Conversions, w, case),
         _ => None,
     }
 }
